@@ -489,7 +489,8 @@ func GenStream(c *simrt.Chooser, o StreamOpts) *Stream {
 			for i := 0; i < ln; i++ {
 				// a transaction (or script) that writes to two databases: the master emits the SELECT where the
 				// database changes, inside the MULTI ... EXEC it propagates
-				if o.TxnInnerSelect && !o.OnlyDB0 && i > 0 && c.Choose("txninnersel", 8) == 0 {
+				// (also directly behind MULTI: the shape Redis 7 gives a transaction that starts in another database)
+				if o.TxnInnerSelect && !o.OnlyDB0 && c.Choose("txninnersel", 8) == 0 {
 					selTxn = id
 					selectDB()
 					selTxn = 0
